@@ -7437,7 +7437,8 @@ void SymbolDatabase::setValueType(Token* tok, const ValueType& valuetype, const 
             if (lower->sign == ValueType::Sign::UNSIGNED && lowerSize != 0 && lowerSize >= getIntegerTypeSize(vt.type, mSettings.platform))
                 vt.sign = ValueType::Sign::UNSIGNED;
         }
-        if (vt.type < ValueType::Type::INT && !(ternary && vt.type==ValueType::Type::BOOL)) {
+        // integer promotion; the result of ++ and -- has the type of the operand
+        if (vt.type < ValueType::Type::INT && !(ternary && vt.type==ValueType::Type::BOOL) && parent->tokType() != Token::eIncDecOp) {
             vt.type = ValueType::Type::INT;
             vt.sign = ValueType::Sign::SIGNED;
             vt.originalTypeName.clear();
